@@ -399,9 +399,10 @@ func (c *FnCtx) obligeAt(block int, guard, kind, cond, detail string) *Obligatio
 	}
 	c.seq++
 	c.kcount[kind]++
+	// contract obligations are named by clause/loop/return ordinals only (stable under unrelated edits)
 	name := fmt.Sprintf("%s/%s#%d", c.Name, kind, c.kcount[kind])
 	if detail != "" {
-		name += "[" + detail + "]"
+		name = fmt.Sprintf("%s/%s[%s]", c.Name, kind, detail)
 	}
 	o := &Obligation{Name: name, Kind: kind, Block: block, Seq: c.seq, Guard: guard, Cond: cond, Func: c.Name, Detail: detail}
 	c.obls = append(c.obls, o)
@@ -511,6 +512,24 @@ func (c *FnCtx) checkEnsures() {
 // havocLoop: heaps written in the loop are havocked at its header; when every write to a heap
 // goes directly to the row of an object defined outside the loop, only those rows are havocked.
 func (c *FnCtx) havocLoop(l *Loop) {
+	pre := copyState(c.st)
+	defer func() {
+		if len(c.protected) == 0 {
+			return
+		}
+		// local cells written directly inside the loop are genuinely loop-carried
+		written := map[*ssa.Alloc]bool{}
+		for bi := range l.Blocks {
+			for _, ins := range c.F.Blocks[bi].Instrs {
+				if root := c.E.writeRoot(ins); root != nil {
+					if a, ok := root.(*ssa.Alloc); ok {
+						written[a] = true
+					}
+				}
+			}
+		}
+		c.restoreProtectedExcept(pre, written)
+	}()
 	if l.Mod["*"] {
 		c.havocAll(fmt.Sprintf("loop %d", l.Ordinal))
 		return
